@@ -341,6 +341,15 @@ ref_compute(const JobSpec &s, const MatJob &mj, RefOut &ro)
                                 // for out-of-place only the bits in range are defined)
                                 ro.dst = full;
                                 if (s.inplace) {
+                                        // bits after the range in the last byte are not specified (KASUMI keeps the old bits,
+                                        // SNOW3G leaves keystream there): take the library's
+                                        const unsigned endbits = (s.c_off + s.c_len) & 7;
+                                        if (endbits && s.c_len) {
+                                                const uint32_t lb = (s.c_off + s.c_len - 1) / 8;
+                                                const uint8_t keep = (uint8_t) (0xFF >> endbits);
+                                                full[lb] = (uint8_t) ((full[lb] & ~keep) | (mj.src[lb] & keep));
+                                                ro.dst = full;
+                                        }
                                         src = full;
                                 } else {
                                         // compare only bytes fully inside the range plus masked edges
